@@ -32,6 +32,13 @@ CHECKS["C17"] = dict(
     note="Trusted: the harness's LNodes interpreter (C semantics of operators), gcc. INT/INT division and division by zero-valued operands excluded.",
     design="5/C17",
 )
+CHECKS["C11"] = dict(
+    category="exploration",
+    technique="Hypothesis-generated monomial functionals x degree x scheme x rational affine geometry; oracles: exact rational integration and the harness's own per-integral quadrature sums (basix rules)",
+    text="Generated functionals with one or several (degree, scheme) rules in a subdomain, negative controls above the rule's degree, vertex scheme, quadrature elements (default and custom points/weights) and metadata-free polynomial products; the kernel value must equal the sum of each integral's own rule and the exact rational integral where the rule is exact. Degrees up to 30 and all schemes are sampled, not exhausted.",
+    note="Trusted: basix.make_quadrature as the definition of a rule; rational arithmetic of the harness. Table tolerances set to 1e-14 for sharpness.",
+    design="5/C11",
+)
 PENDING = {}
 
 def main():
